@@ -44,14 +44,15 @@ Section Wrap.
   (* one admonition layer: the fence token denotes the admonition node around the body's own
      denotation *)
   Lemma den_fence_adm f top ho h titled name first o k len X a b bd :
+    ho = 0 ->
     wfW env orc (Adm titled name first o k len) X ->
     (forall h' lineno, den_text_at env orc f false 0 h' (unlines X) lineno = bd h' lineno) ->
     den_tok env orc (S f) top ho h
       (TFence (is_colon k) (info_of name first) (unlines (opt_lines o ++ X)) (Some (a, b)))
     = expected env orc f (Adm titled name first o k len) X bd h a.
   Proof.
-    intros [Hsafe [Hinfo [Hrst [Hdir [p [Hp [Hbody Hne]]]]]]] Hbd.
-    cbn [den_tok den_step]. unfold den_fence. rewrite Hinfo.
+    intros Hho [Hsafe [Hinfo [Hrst [Hdir [p [Hp [Hbody Hne]]]]]]] Hbd.
+    subst ho. cbn [den_tok den_step]. unfold den_fence. rewrite Hinfo.
     rewrite directive_name_braces. rewrite Hrst. rewrite andb_false_r.
     cbn [token_line bind].
     unfold den_directive. rewrite Hdir.
@@ -64,12 +65,12 @@ Section Wrap.
     destruct X as [|x X']; [congruence|]. cbn [is_nil].
     set (off := (p_off p - prepended_lines (is_colon k) (unlines (opt_lines o ++ x :: X')))%nat).
     assert (Hbody_den : forall h1 (n1 : node),
-      (do r2 <- cb_nested_parse (den_mock_state env orc (den_tok env orc f) a) (x :: X') off n1 h1;
+      (do r2 <- cb_nested_parse (den_mock_state env orc (den_tok env orc f) 0 a) (x :: X') off n1 h1;
        Ok (DNodes [fst r2], snd r2))
       = (do r <- bd h1 (a + N.of_nat off);
          Ok (DNodes [add_kids n1 (fst (fst r))], snd (fst r)))).
     { intros h1 n1. cbn [cb_nested_parse den_mock_state].
-      rewrite <- Hbd. unfold den_text_at, den_nested.
+      rewrite <- Hbd. unfold den_text_at, den_nested. change (0 + 0) with 0.
       rewrite (join_nl_unlines (x :: X')) by discriminate.
       destruct (o_P orc (s_env h1) (unlines (x :: X'))) as [toks e'].
       destruct (den_fold (den_tok env orc f false 0) (set_env e' h1) _) as [[[ns h'] bb]|e];
@@ -77,7 +78,7 @@ Section Wrap.
     destruct titled.
     - destruct (p_args p) as [|ta targs]; [reflexivity|].
       cbn [cb_inline_text den_mock_state]. unfold den_title.
-      destruct (den_nested env orc (den_tok env orc f) false h ta a true 0) as [[[tn h1] tb]|e];
+      destruct (den_nested env orc (den_tok env orc f) false 0 h ta a true 0) as [[[tn h1] tb]|e];
         [|reflexivity].
       cbn [bind fst snd].
       rewrite (Hbody_den h1 (add_kids (Node NAdm (name ++ attrs) (Some a) []) [Node NTitle ta None tn])).
@@ -118,14 +119,14 @@ Section Wrap.
   Qed.
 
   (* any depth *)
-  Lemma den_wrapper w : forall X F bd top ho h a b,
+  Lemma den_wrapper w : forall X F bd top h a b,
     wfW env orc w X ->
     (forall h' lineno, den_text_at env orc F false 0 h' (unlines X) lineno = bd h' lineno) ->
-    den_tok env orc (depth w + F) top ho h (fence_tok w X a b) = expected env orc F w X bd h a.
+    den_tok env orc (depth w + F) top 0 h (fence_tok w X a b) = expected env orc F w X bd h a.
   Proof.
     induction w as [titled name first o k len|o IHo i IHi|path|key];
-      intros X F bd top ho h a b Hwf Hbd.
-    - unfold fence_tok. cbn [fence_parts depth]. apply den_fence_adm; assumption.
+      intros X F bd top h a b Hwf Hbd.
+    - unfold fence_tok. cbn [fence_parts depth]. apply den_fence_adm; [reflexivity|assumption|assumption].
     - destruct Hwf as [Ho Hi].
       unfold fence_tok in *. cbn [fence_parts depth expected].
       rewrite <- Nat.add_assoc.
@@ -140,7 +141,7 @@ Section Wrap.
       rewrite (O_fence (s_env h') ki leni infoi bodyi Hsafe).
       cbn [drop_front_matter map shift_tok shift_map].
       rewrite den_fold_single'. rewrite set_env_same.
-      specialize (IHi X F bd false 0 h' (0 + lineno + 1) (N.of_nat (length bodyi) + 2 + lineno + 1) Hi Hbd).
+      specialize (IHi X F bd false h' (0 + lineno + 1) (N.of_nat (length bodyi) + 2 + lineno + 1) Hi Hbd).
       rewrite Ep in IHi. rewrite IHi. reflexivity.
     - destruct Hwf.
     - destruct Hwf.
@@ -177,7 +178,7 @@ Section Wrap.
     - unfold den_tokens. cbn [map shift_tok shift_map]. rewrite den_fold_single'.
       pose proof (den_wrapper w X F
                     (fun h k => den_text_at env orc F false 0 h (unlines X) k)
-                    true 0 (sh0 e0) (0 + 1) (N.of_nat (length body) + 2 + 1)
+                    true (sh0 e0) (0 + 1) (N.of_nat (length body) + 2 + 1)
                     Hwf (fun h' lineno => eq_refl)) as Hd.
       unfold fence_tok in Hd. rewrite Ep in Hd. rewrite Hd.
       change (0 + 1) with 1.
